@@ -8,7 +8,7 @@ THEOREMS = ["C04_code_conforms", "C04_tasks_are_zip", "C04_emitted_exactly_once"
 
 def special_shapes(rng, i):
     """shapes the random generator reaches rarely: port-less process, FromStr longer than the buffer, long chains, wide fan-out, single-port fan-in"""
-    kind = i % 7
+    kind = i % 8
     buf = rng.choice([1, 2, 3])
     sp = t3.Spec(maxtasks=rng.randint(1, 4), bufsize=buf)
     L = buf + rng.randint(0, 3)
@@ -35,6 +35,10 @@ def special_shapes(rng, i):
         b = sp.proc(t3.Proc("right", kind="cattok", ins=[("a", [(s, "out")])], outs=[("o", "{i:a}.right")]))
         sp.proc(t3.Proc("extra", kind="cat", ins=[("a", [(s, "out")])], outs=[("o", "{i:a}.extra")]))
         sp.proc(t3.Proc("join", kind="cat", ins=[("x", [(a, "o")]), ("y", [(b, "o")])], outs=[("o", "{i:x}.joined")]))
+    elif kind == 7:    # parameter values that differ only in letter case or punctuation, default output names: one task and one file each
+        vals = rng.sample(["C", "c", "N", "n", "chrX", "chrx", "a_b", "A_B", "a.b", "a-b"], rng.randint(3, 6))
+        a = sp.proc(t3.Proc("mk", kind="write", pars=[("atom", ("V", vals))], outs=[("o", None)]))
+        sp.proc(t3.Proc("use", kind="cat", ins=[("a", [(a, "o")])], outs=[("o", "{i:a}.use")]))
     elif kind == 6:    # a sub-stream: every item sent into the adapter reaches the joining task, which runs once
         L2 = rng.choice([1, 2, buf + 1, buf + 4])
         paths = ["m%d.txt" % j for j in range(L2)]
